@@ -132,9 +132,9 @@ Definition h_set_names l cs h := {| h_cb := h_cb h; h_remaining := h_remaining h
 Definition h_set_lookups l h := {| h_cb := h_cb h; h_remaining := h_remaining h; h_names := h_names h; h_cur_single := h_cur_single h;
   h_family := h_family h; h_lookups := l; h_localhost := h_localhost h; h_nodes := h_nodes h; h_v4 := h_v4 h;
   h_nodata := h_nodata h; h_qid_a := h_qid_a h; h_qid_aaaa := h_qid_aaaa h; h_nomem := h_nomem h |}.
-Definition h_set_ai nodes v4 nm h := {| h_cb := h_cb h; h_remaining := h_remaining h; h_names := h_names h; h_cur_single := h_cur_single h;
+Definition h_set_ai nodes v4 nm nd h := {| h_cb := h_cb h; h_remaining := h_remaining h; h_names := h_names h; h_cur_single := h_cur_single h;
   h_family := h_family h; h_lookups := h_lookups h; h_localhost := h_localhost h; h_nodes := nodes; h_v4 := v4;
-  h_nodata := h_nodata h; h_qid_a := h_qid_a h; h_qid_aaaa := h_qid_aaaa h; h_nomem := nm |}.
+  h_nodata := nd; h_qid_a := h_qid_a h; h_qid_aaaa := h_qid_aaaa h; h_nomem := nm |}.
 Definition h_set_nodata n h := {| h_cb := h_cb h; h_remaining := h_remaining h; h_names := h_names h; h_cur_single := h_cur_single h;
   h_family := h_family h; h_lookups := h_lookups h; h_localhost := h_localhost h; h_nodes := h_nodes h; h_v4 := h_v4 h;
   h_nodata := n; h_qid_a := h_qid_a h; h_qid_aaaa := h_qid_aaaa h; h_nomem := h_nomem h |}.
@@ -916,7 +916,9 @@ with host_callback (fuel : nat) (o : obj) (r : result) {struct fuel} : M unit :=
   let! h := get_host o in
   (* hquery->ai as left by the parser; hquery->nomem (740940b) *)
   let nm := h_nomem h || zeqb st ARES_ENOMEM || zeqb ais ARES_ENOMEM in
-  store o (CHost (h_set_ai nodes v4 nm h)) ;;
+  (* 3eb5c71: a no-data answer is remembered also when it is not the last of the pair *)
+  let nd := if negb (Nat.eqb rem 0) && (zeqb st ARES_ENODATA || zeqb ais ARES_ENODATA) then S (h_nodata h) else h_nodata h in
+  store o (CHost (h_set_ai nodes v4 nm nd h)) ;;
   (* terminate_retries: the other query of this lookup, found by its id, no longer retries *)
   (if zeqb st ARES_SUCCESS && zeqb ais ARES_SUCCESS && v4 && negb (Nat.eqb rem 0) then
      let id := match r_rec r with Some (_, _, id) => id | None => 0 end in
